@@ -6,7 +6,8 @@ package main
 //   case N seq      sequential history; ops: sub I | unsub I | set K V | inc K N | del K | shift K | get K | reload
 //   case N conc     forced schedule on SendMsg: subscriber 1 is attached with a *gated* stream
 //                   (SendMsg blocks until `drain`); ops: spawn T set K V | drain
-//   case N stress   op: stress W K N  (W writers × N increments over K keys, ungated stream)
+//   case N stress P op: stress W K N  (W writers × N increments over K keys, ungated stream);
+//                   P = p1 (write interval 1 s) | p0 (immediate write: SaveFunction releases the guard itself)
 //
 // replies
 //   seq:    st=<NEW|UPDATED|SAME|DELETED|NOT_FOUND|ERR|val:N|-> followed by one ` sI=[ev;ev…]` per
@@ -45,9 +46,9 @@ const c19StepTimeout = 5 * time.Second
 // ---------------------------------------------------------------- generator
 
 func c19Gen(rng *rand.Rand, tier string, w *bufio.Writer) {
-	seqCases, concCases, stress := 40, 16, 2
+	seqCases, concCases, stress := 150, 40, 4
 	if tier == "thorough" {
-		seqCases, concCases, stress = 400, 120, 8
+		seqCases, concCases, stress = 1500, 400, 12
 	}
 	c := 0
 	// corpus: the no-op save, the old-value case, time, and the two overlap schedules
@@ -102,7 +103,7 @@ func c19Gen(rng *rand.Rand, tier string, w *bufio.Writer) {
 		fmt.Fprintln(w, "drain")
 	}
 	for i := 0; i < stress; i++ {
-		fmt.Fprintf(w, "case %d stress\nstress %d %d %d\n", c, 4+rng.Intn(5), 1+rng.Intn(3), 40+rng.Intn(60))
+		fmt.Fprintf(w, "case %d stress %s\nstress %d %d %d\n", c, []string{"p1", "p0"}[i%2], 4+rng.Intn(5), 1+rng.Intn(3), 40+rng.Intn(60))
 		c++
 	}
 }
@@ -548,6 +549,8 @@ func c19Run(in *bufio.Scanner, w *bufio.Writer) {
 	defer rig.Stop(true)
 	rig.Settings.RegisterPattern(name.New().Sanctuary("c19p").Realm("*").Swamp("*"), false, 3600,
 		&settings.FileSystemSettings{WriteIntervalSec: 1, MaxFileSizeByte: 8192, UseChroniclerV2: true})
+	rig.Settings.RegisterPattern(name.New().Sanctuary("c19z").Realm("*").Swamp("*"), false, 3600,
+		&settings.FileSystemSettings{WriteIntervalSec: 0, MaxFileSizeByte: 8192, UseChroniclerV2: true})
 	st := &c19State{rig: rig, runTag: strconv.FormatInt(time.Now().UnixNano()%1000000, 36), subs: map[int]*c19Stream{},
 		threads: newCCThreads(), events: make(chan c19Ev, 4096)}
 	verifhook.SetHandler(func(nm string, args ...any) {
@@ -595,7 +598,14 @@ func c19Run(in *bufio.Scanner, w *bufio.Writer) {
 			if len(f) == 3 {
 				st.mode = f[2]
 			}
-			st.swamp = name.New().Sanctuary("c19p").Realm("r" + st.runTag).Swamp("c" + f[1]).Get()
+			if len(f) >= 3 {
+				st.mode = f[2]
+			}
+			sanct := "c19p"
+			if len(f) == 4 && f[3] == "p0" {
+				sanct = "c19z"
+			}
+			st.swamp = name.New().Sanctuary(sanct).Realm("r" + st.runTag).Swamp("c" + f[1]).Get()
 			if st.mode == "conc" {
 				st.gate = make(chan struct{})
 				if st.subscribe(1) != "ok" {
